@@ -436,12 +436,7 @@ func checkC18(c *Ctx) {
 				d := Desc(RetVals(r)[0])
 				c.Check(d == "Enabled(h.core, convertSlogLevel(level))", "R18.2", en.String(), "enabled-uses-map", r.Pos(), "Enabled asks the core about the mapped level (%s)", d)
 			}
-			okL := false
-			AllInstrs(hd, func(i ssa.Instruction) {
-				if st, ok := i.(*ssa.Store); ok && Desc(st.Addr) == "ent.Level" {
-					okL = Desc(st.Val) == "convertSlogLevel(record.Level)"
-				}
-			})
+			okL := c18HandleChecksMapped(hd)
 			c.Check(okL, "R18.2", hd.String(), "handle-uses-map", hd.Pos(), "Handle stamps the entry with convertSlogLevel(record.Level)")
 		}
 	}
@@ -493,29 +488,178 @@ func checkC18(c *Ctx) {
 
 	// ---------------- R18.6 ----------------
 	if hd != nil {
-		var chk *ssa.Call
-		for _, cl := range Calls(hd) {
-			if IsCallTo(cl, "(go.uber.org/zap/zapcore.Core).Check") {
-				chk, _ = cl.(*ssa.Call)
+		c18HandleProtocol(c, hd)
+	}
+}
+
+// c18Explore explores Handle (helpers inline) and reports every path as a sequence of: check / check(?…) - the one
+// question put to the core, with the entry's level being convertSlogLevel(record.Level) and a nil checked entry, asked
+// of the handler's own core; accepted / declined - the test of the answer; write - the accepted entry written; c - any
+// other call after the question.
+func c18Explore(hd *ssa.Function) (seqs []string, trunc bool) {
+	resolve := func(st *ConcState, v ssa.Value) ssa.Value {
+		for k := 0; k < 16; k++ {
+			nx := st.Step(v)
+			if nx == nil {
+				break
 			}
+			v = nx
 		}
-		if chk == nil {
-			c.Bad("R18.6", hd.String(), "checks", hd.Pos(), "Handle does not call Core.Check")
-		} else {
-			c.Check(Desc(Args(chk)[0]) == "h.core" && IsNilConst(Args(chk)[2]), "R18.6", hd.String(), "checks-core", chk.Pos(), "Handle asks its core with a nil checked entry")
-			var w ssa.Instruction
-			for _, cl := range Calls(hd) {
-				if IsCallTo(cl, "(*go.uber.org/zap/zapcore.CheckedEntry).Write") && Strip(Args(cl)[0]) == ssa.Value(chk) {
-					w = cl
+		return v
+	}
+	isCheck := func(st *ConcState, v ssa.Value) bool {
+		cl, ok := resolve(st, v).(*ssa.Call)
+		return ok && IsCallTo(cl, "(go.uber.org/zap/zapcore.Core).Check")
+	}
+	rn := PN(hd.Params[0])
+	return ConcPaths(hd, ConcCfg{
+		// the level map stays a call: the question is whether it is applied, not what it yields
+		Inline: func(h *ssa.Function) bool {
+			return !(h.Name() == "convertSlogLevel" && h.Pkg != nil && h.Pkg.Pkg.Path() == SlogPath)
+		},
+		Event: func(in ssa.Instruction, st *ConcState) string {
+			switch x := in.(type) {
+			case *ssa.Call:
+				switch {
+				case IsCallTo(x, "(go.uber.org/zap/zapcore.Core).Check"):
+					why := ""
+					if d := st.Desc(x.Call.Value); d != rn+".core" {
+						why += " asked of " + d
+					}
+					if n, known := st.IsNil(x.Call.Args[1]); !known || !n {
+						why += " with a checked entry that is not nil"
+					}
+					_, _, lv := st.FieldOf(x.Call.Args[0], "Level")
+					okLvl := false
+					if lv != nil {
+						if cl, isCall := resolve(st, lv).(*ssa.Call); isCall && IsCallTo(cl, SlogPath+".convertSlogLevel") && st.Desc(cl.Call.Args[0]) == "record.Level" {
+							okLvl = true
+						}
+					}
+					if !okLvl {
+						d := "?"
+						if lv != nil {
+							d = st.Desc(lv)
+						}
+						why += " about level " + d
+					}
+					if why != "" {
+						return "check(?" + why + ")"
+					}
+					return "check"
+				case IsCallTo(x, "(*go.uber.org/zap/zapcore.CheckedEntry).Write") && isCheck(st, x.Call.Args[0]):
+					return "write"
+				}
+				return "c"
+			case *ssa.Return:
+				if len(st.cfg.stackDepth()) == 0 {
+					return "ret"
 				}
 			}
-			_, t, f := BranchOn(hd, Desc(chk)+" != nil")
-			okW := w != nil && t != nil && !ExistsPath(hd, AtBlock(t), IsReturn, func(i ssa.Instruction) bool { return i == w })
-			okN := f != nil && !ExistsPath(hd, AtBlock(f), func(i ssa.Instruction) bool { _, isCall := i.(ssa.CallInstruction); return isCall }, nil)
-			c.Check(okW, "R18.6", hd.String(), "writes-iff-accepted", chk.Pos(), "an accepted record is always written")
-			c.Check(okN, "R18.6", hd.String(), "declined-does-nothing", chk.Pos(), "a declined record returns at once without any further call")
+			return ""
+		},
+		Branch: func(cond ssa.Value, taken bool, st *ConcState) string {
+			pol := taken
+			for k := 0; k < 8; k++ {
+				if u, ok := cond.(*ssa.UnOp); ok && u.Op == token.NOT {
+					cond, pol = u.X, !pol
+					continue
+				}
+				if nx := st.Step(cond); nx != nil {
+					cond = nx
+					continue
+				}
+				break
+			}
+			bo, ok := cond.(*ssa.BinOp)
+			if !ok || !IsNilConst(bo.Y) || (bo.Op != token.EQL && bo.Op != token.NEQ) || !isCheck(st, bo.X) {
+				return ""
+			}
+			if pol == (bo.Op == token.NEQ) {
+				return "accepted"
+			}
+			return "declined"
+		},
+	})
+}
+
+// c18HandleChecksMapped: on every path Handle puts exactly one question to the core, about the mapped level.
+func c18HandleChecksMapped(hd *ssa.Function) bool {
+	seqs, trunc := c18Explore(hd)
+	if trunc || len(seqs) == 0 {
+		return false
+	}
+	for _, sq := range seqs {
+		n := 0
+		for _, t := range strings.Split(sq, " ; ") {
+			if strings.HasPrefix(t, "check") {
+				if t != "check" {
+					return false
+				}
+				n++
+			}
+		}
+		if n != 1 {
+			return false
 		}
 	}
+	return true
+}
+
+// c18HandleProtocol: R18.6 on the paths of Handle: the one question, then either "declined" and the return with no
+// further call, or "accepted" and - after whatever builds the fields - exactly one Write of the accepted entry.
+func c18HandleProtocol(c *Ctx, hd *ssa.Function) {
+	seqs, trunc := c18Explore(hd)
+	if trunc || len(seqs) == 0 {
+		c.Und("R18.6", hd.String(), "checks", hd.Pos(), "path exploration of Handle incomplete")
+		return
+	}
+	var noCheck, badCore, notWritten, busy []string
+	for _, sq := range seqs {
+		var toks []string
+		for _, t := range strings.Split(sq, " ; ") {
+			if t == "c" && len(toks) > 0 && toks[len(toks)-1] == "c" {
+				continue
+			}
+			toks = append(toks, t)
+		}
+		// drop what precedes the question
+		k := -1
+		for i, t := range toks {
+			if strings.HasPrefix(t, "check") {
+				k = i
+				break
+			}
+		}
+		if k < 0 {
+			noCheck = append(noCheck, sq)
+			continue
+		}
+		if toks[k] != "check" {
+			badCore = append(badCore, toks[k])
+		}
+		rest := strings.Join(toks[k+1:], " ")
+		switch {
+		case strings.HasPrefix(rest, "declined"):
+			if rest != "declined ret" {
+				busy = append(busy, rest)
+			}
+		case strings.HasPrefix(rest, "accepted"):
+			if strings.Count(rest, "write") != 1 || strings.Contains(rest, "check") {
+				notWritten = append(notWritten, rest)
+			}
+		default:
+			notWritten = append(notWritten, "the answer is not tested: "+rest)
+		}
+	}
+	if len(noCheck) > 0 {
+		c.Bad("R18.6", hd.String(), "checks", hd.Pos(), "Handle does not call Core.Check on every path: %v", uniqSorted(noCheck))
+		return
+	}
+	c.OK("R18.6", hd.String(), "checks", hd.Pos(), "every path of Handle (helpers inline, %d paths) puts one question to the core", len(seqs))
+	c.Check(len(badCore) == 0, "R18.6", hd.String(), "checks-core", hd.Pos(), "Handle asks its own core with a nil checked entry: %v", uniqSorted(badCore))
+	c.Check(len(notWritten) == 0, "R18.6", hd.String(), "writes-iff-accepted", hd.Pos(), "an accepted record is written exactly once on every path: %v", uniqSorted(notWritten))
+	c.Check(len(busy) == 0, "R18.6", hd.String(), "declined-does-nothing", hd.Pos(), "a declined record returns at once without any further call: %v", uniqSorted(busy))
 }
 
 func calleeName(f *types.Func) string {
